@@ -184,7 +184,7 @@ def instances():
     T("c01_insert_n16", "c01::insert::<16, 16>(6, 4)", 16, items=6, be=G8, props=C1, timeout=1800)
     T("c01_remove_n8", "c01::remove::<8>(false)", 8, props=C1)
     T("c01_remove_entry_n8", "c01::remove::<8>(true)", 8, be=G8, props=C1)
-    T("c01_remove_n16", "c01::remove::<16>(false)", 16, be=G8, props=C1, timeout=1800)
+    T("c01_remove_n16", "c01::remove::<16>(false)", 16, be=G8, props=C1, timeout=7200, tier="thorough")
     T("c01_try_insert_n8", "c01::try_insert::<8, 8>(4, 0)", 8, items=4, be=G8, props=C1, tier="thorough", timeout=10800, mem_gb=40)
     for form, fn_ in enumerate(("or_insert", "and_modify", "entry_ref", "occ_vac_insert", "or_insert_with_key", "or_default")):
         # HashMap::entry(K) followed by VacantEntry::insert does not finish under CBMC (the merged value
@@ -219,7 +219,7 @@ def instances():
           tier="thorough" if w == 1 else "quick", timeout=10800 if w == 1 else 900, mem_gb=30 if w == 1 else 14)
     # ------------------------------------------------------------------ C02 layouts, ZST, leaked guards
     OPS = ("insert", "remove", "iterate", "drain", "clone", "into_iter", "insert_grow", "retain", "shrink")
-    for ty, tn, quick_ops in (("u16", "u16", (0, 6)), ("u64", "u64", (1, 4)), ("[u64; 3]", "u64x3", (0, 3, 6)), ("sym::Al32", "al32", (0, 1, 2, 6)), ("sym::Big", "big200", (0, 5))):
+    for ty, tn, quick_ops in (("u16", "u16", (0,)), ("u64", "u64", (1, 4)), ("[u64; 3]", "u64x3", (0, 6)), ("sym::Al32", "al32", (0, 1, 6)), ("sym::Big", "big200", (0, 5))):
         for op, on in enumerate(OPS):
             n, n2, items = (4, 8, 3) if op == 6 else (4, 4, 2)
             if ty == "u16" and True:
@@ -243,7 +243,8 @@ def instances():
         nn = 4 if on == "extract_if" else 8
         T("c03_%s_n%d" % (on, nn), "c03::ledger_op::<%d>(%d)" % (nn, op), nn, be=G8, props=("C03", "C02"))
     T("c03_drop_n16", "c03::ledger_op::<16>(0)", 16, be=G8, props=("C03",))
-    T("c03_drain_n16", "c03::ledger_op::<16>(5)", 16, be=G8, props=("C03", "C10", "C09"), timeout=2400, mem_gb=20, share_quick=("C10", "C09"))
+    T("c03_drain_n16", "c03::ledger_op::<16>(5)", 16, be=G8, props=("C03", "C10", "C09"), timeout=7200, mem_gb=30, tier="thorough")
+    T("c03_drain_n16_counts", "c03::drain_counts::<16>(4, 3, 1)", 16, items=4, be=G8, props=("C03", "C10", "C09"), timeout=1200, share_quick=("C10", "C09"))
     T("c03_map_drain_fold_n4", "c03::map_drain_fold::<4>(0)", 4, be=G8, props=("C03", "C10", "C09"), share_quick=("C10", "C09"), timeout=1800, mem_gb=20)
     T("c03_map_drain_fold_n8", "c03::map_drain_fold::<8>(1)", 8, be=G8, props=("C03", "C10", "C09"), tier="thorough", timeout=10800, mem_gb=40)
     T("c03_into_iter_n8s", "c03::ledger_op::<8>(6)", 8, be=S16, props=("C03",))
@@ -304,7 +305,7 @@ def instances():
     T("c04_rehash_hook_drop_n4", "c04::rehash_hook_panic::<4>(2, true)", 4, n2=4, items=2, be=G8, props=("C04", "C03"), timeout=1800, covers="some")
     T("c04_rehash_hook_nodrop_n4", "c04::rehash_hook_panic::<4>(2, false)", 4, n2=4, items=2, props=("C04", "C02"), timeout=1800, be_quick=G8, covers="some")
     for (nt, ns) in ((8, 8), (8, 4), (4, 8), (8, 1), (4, 4)):
-        big = (nt, ns) in ((8, 8), (4, 8))
+        big = (nt, ns) in ((8, 8), (4, 8), (8, 4))
         T("c04_clone_from_panic_%d_%d" % (nt, ns), "c04::clone_from_panic::<%d, %d>()" % (nt, ns), max(nt, ns), be=G8, props=("C04", "C11", "C03"), covers="some" if ns == 1 else "all",
           tier="thorough" if big else "quick", timeout=10800 if big else 900, mem_gb=30 if big else 14)
     for w, wn in enumerate(("clear", "drop", "drain", "into_iter", "retain", "shrink0")):
@@ -317,8 +318,8 @@ def instances():
     # ------------------------------------------------------------------ C07 HashSet algebra
     for op, on in enumerate(("union", "intersection", "difference", "symdiff")):
         # next()-driven with size_hint at every step: 2 steps in the quick tier, to exhaustion in the thorough tier
-        T("c07_%s_next2_n4_n4" % on, "c07::algebra::<4, 4>(2, 3, %d, 2)" % op, 4, be=G8, props=("C07",), unwind=7, timeout=1500 if op != 3 else 14400,
-          tier="quick" if op != 3 else "thorough", mem_gb=14 if op != 3 else 40)
+        T("c07_%s_next2_n4_n4" % on, "c07::algebra::<4, 4>(2, 3, %d, 2)" % op, 4, be=G8, props=("C07",), unwind=7, timeout=1500 if op < 2 else 14400,
+          tier="quick" if op < 2 else "thorough", mem_gb=14 if op < 2 else 40)
         T("c07_%s_n4_n4" % on, "c07::algebra::<4, 4>(2, 3, %d, 9)" % op, 4, be=G8, props=("C07",), unwind=7, timeout=14400, tier="thorough", mem_gb=40)
         T("c07_%s_n4_n4_rev" % on, "c07::algebra::<4, 4>(3, 1, %d, 9)" % op, 4, be=G8, props=("C07",), unwind=7, timeout=14400, tier="thorough", mem_gb=40)
         T("c07_%s_fold_n4_n4" % on, "c07::algebra_fold::<4, 4>(2, 3, %d)" % op, 4, be=G8, props=("C07",), unwind=7, timeout=1500)
@@ -414,10 +415,10 @@ def instances():
         "C03": ["c04_clone_from_panic_4_4", "c11_clone_from_8_4", "c19_par_drain_producer_n8", "c04_drop_panic_retain_n8",
                 "c04_rehash_hook_drop_n4", "c04_drop_panic_clear_n8"],
         "C02": ["c04_hasher_grow_nodrop_n8", "c05_insert_n8", "c03_drop_n8", "c17_table_layout_types",
-                "c04_rehash_hook_drop_n4", "c04_rehash_hook_nodrop_n4", "c04_drop_panic_drain_n8"],
+                "c04_rehash_hook_drop_n4", "c04_drop_panic_drain_n8"],
         "C11": ["c07_pred_eq_n4_n4", "c04_clone_from_panic_4_4"],
         "C01": ["c06_rehash_ct8_b1", "c14_map_occ_remove_n8", "c06_base_cap3", "c14_map_occ_replace_entry_with_n8", "c14_map_occ_and_replace_entry_with_n8",
-                "c14_rustc_or_insert_n4_full", "c14_raw_mut_or_insert_n8"],
+                ],
         "C05": ["c15_table_sloppy_n8_k2", "c14_map_occ_replace_entry_with_n8"],
         "C09": ["c04_rehash_hook_drop_n4", "c02_zst_iterate_n8"],
         "C10": ["c02_zst_remove_n8", "c02_zst_retain_n8", "c02_zst_extract_if_n8"],
